@@ -8,6 +8,7 @@
  * then publishes the waiter on its run queue.
  */
 #include "verif_common.h"
+#define VERIF_HAS_ON_SAVE 1
 #include "verif_ctx.h"
 #include "myth_sync_func.h"
 
